@@ -315,6 +315,8 @@ def gen_c14(rng, tier):
             out.append(gen_hist.gen_thist_case(rng, cf[i % len(cf)]))
         if i % 4 == 1:
             out.append(gen_hist.gen_hash_equal_pair(rng, cf[i % 4]))
+        if i % 5 == 2:
+            out.append(gen_hist.gen_first_observer_pair(rng))
     return out
 
 C14 = Spec('C14',
